@@ -15,7 +15,8 @@ LEVEL_TEXT = ('Decides clauses C18-a/b: in UntilInterrupt::poll no path from the
               ', the spawned future awaits session.manage() before releasing its handle, the accept loop is left only on the None edge of until_interrupt, the listen'
               'er is dropped and the original WaitGroup awaited before the return; WaitGroup counts with fetch_add/fetch_sub, is Ready only on a zero load and is not'
               ' Clone. Decides these conditions, not liveness under all interleavings. Nothing reachable from Session::manage spawns or detaches a task, so the sessi'
-              "on's WaitGroup handle covers the whole service of the connection (WebSocket phase included).")
+              "on's WaitGroup handle covers the whole service of the connection (WebSocket phase included). Every Pending answer of UntilInterrupt::poll is dominated"
+              " by an unconditional swap/store of the current task's waker into WAKER (no publish-only-if-empty).")
 
 
 def run(ck, progs):
@@ -78,6 +79,21 @@ def c18a(ck, prog):
                              "CATCH.load (false) and the publication, it finds no waker to wake, and the published waker is never woken -- howl notices the interrupt only when "
                              "the next connection arrives" % p.name),
               how="every path from WAKER.%s to `Pending` passes CATCH.load" % p.name)
+    # every Pending answer leaves the *current* waker published: on each path to `Pending` an unconditional exchange of the
+    # slot (swap / store) with the task's waker has run -- not `only if the slot is empty` (a future polled by another task
+    # later, or after a spurious poll, would leave a stale waker there, and the handler would wake the wrong task)
+    uncond = [p_ for p_ in pubs if p_.name in ("swap", "store", "lock")]
+    okp = bool(pend) and bool(uncond)
+    for b in pend:
+        if not any(f.dominates(p_.bb, b) for p_ in uncond):
+            okp = False
+    for p_ in uncond:
+        for fa in guards.facts_at(f, prog, p_.bb):
+            if fa.kind == "boolcall" and fa.call.name in ("is_null", "is_none", "is_some") and "WAKER" in decision.describe_deep(f, fa.call.args[0], 4):
+                okp = False
+    ck.ob(R, "poll:publishes-current-waker", okp, f.loc(pubs[0].sp if pubs else None),
+          "" if okp else "UntilInterrupt::poll can answer Pending without having put the current task's waker into WAKER (publication only by compare_exchange / only when the slot is empty): after the future is polled with another waker the handler wakes a stale one and howl never notices the interrupt",
+          how="WAKER.swap/store(current waker) dominates every Pending, under no emptiness test")
     # the flag read leads to Ready(None) on its true edge
     ok = False
     for b in ready_none:
